@@ -6,6 +6,8 @@ import Ntrip.Model.Base
 import Ntrip.Model.Analyse
 import Ntrip.Spec.MsmCodec
 import Ntrip.Model.Range
+import Ntrip.Model.Queue
+import Ntrip.Model.Reader
 /-! Operations of the line protocol.  Every branch that rejects input answers `bad-op`
     (never a default value). -/
 namespace Driver
@@ -111,7 +113,58 @@ def parseInts (s : String) : Option (List Int) :=
 def parseCols (s : String) : Option (List (List Int)) :=
   if s == "-" then some [] else (s.splitOn ";").mapM parseInts
 
+/-- Run queue operations `a<id>` (add) and `g` (snapshot); answer the snapshots. -/
+def runQueue (q : CQ Nat) : List String → List String
+  | [] => []
+  | op :: rest =>
+    if op == "g" then s!"[{joinWith "," (q.get.map toString)}]/{q.items.length}" :: runQueue q rest
+    else match (op.drop 1).toString.toNat? with
+      | some id => runQueue (q.add id) rest
+      | none => ["bad-op"]
+
+def parseReadItems : List String → Option (List ReadRes)
+  | [] => some []
+  | t :: rest =>
+    match parseReadItems rest with
+    | none => none
+    | some more =>
+      if t == "eof" then some (.eof :: more)
+      else if t == "to" then some (.timeout :: more)
+      else if t == "err" then some (.other :: more)
+      else if t.startsWith "b:" then
+        match parseHex (t.drop 2).toString with
+        | some bs => some (bs.map ReadRes.byte ++ more)
+        | none => none
+      else none
+
+/-- An ideal clock: `time.Now()` readings when only the sleeps take time (plus 1 ms each). -/
+def idealClock (cfg : RCfg) : List ReadRes → Bool → Nat → List Nat
+  | [], _, _ => []
+  | .byte _ :: rest, _, t => idealClock cfg rest false t
+  | .other :: rest, _, t => idealClock cfg rest false t
+  | _ :: rest, inRun, t =>
+    if inRun then t :: idealClock cfg rest true (t + cfg.tau + 1)
+    else t :: idealClock cfg rest true (t + cfg.omega + 1)
+
+def showStop : RStop → String
+  | .otherError => "other-error" | .noTolerance => "no-tolerance"
+  | .toleranceExpired => "tolerance-expired" | .scriptEnd => "script-end"
+
 def handle : List String → String
+  | "reader" :: t :: tau :: omega :: items =>
+    match t.toInt?, tau.toNat?, omega.toNat?, parseReadItems items with
+    | some T, some tau, some omega, some script =>
+      let cfg : RCfg := ⟨tau, omega⟩
+      -- after the script the reader keeps answering EOF
+      let full := script ++ [.eof, .eof, .eof, .eof]
+      let r := runReader cfg full { clock := idealClock cfg full false 0 }
+      let ms := segmentT crc24q (newState T) (In.ofBytes r.1.forwarded)
+      s!"stop={showStop r.2} fwd={toHex r.1.forwarded} msgs {ms.length}" ++ String.join (ms.map (fun m => s!" {m.typ}:{toHex m.raw}"))
+    | _, _, _, _ => "bad-op"
+  | "queue" :: cap :: ops =>
+    match cap.toInt? with
+    | some c => joinWith " " (runQueue (CQ.new c) ops)
+    | none => "bad-op"
   | ["msmenc", k, pad, hv, cm, sat, sig, _go] =>
     match pad.toNat?, parseInts hv, cm.toNat?, parseCols sat, parseCols sig with
     | some pad, some hvals, some cellMask, some satCols, some sigCols =>
@@ -124,6 +177,21 @@ def handle : List String → String
     | some w, some f, some d7, some p7, some rate, some rd, some d4, some p4 =>
       s!"r7={aggregateRange7 w f d7} p7={aggregatePhase7 w f p7} rate={aggregateRate7 rate rd} r4={aggregateRange4 w f d4} p4={aggregatePhase4 w f p4}"
     | _, _, _, _, _, _, _, _ => "bad-op"
+  | "pipe" :: t :: h :: _ =>
+    -- the pipeline delivers, to every consumer and under every schedule, the sequential segmentation
+    match t.toInt?, parseHex h with
+    | some T, some b =>
+      let ms := segmentT crc24q (newState T) (In.ofBytes b)
+      s!"ok msgs {ms.length}" ++ String.join (ms.map (fun m => s!" {m.typ}:{toHex m.raw}"))
+    | _, _ => "bad-op"
+  | "determ" :: t :: hs =>
+    match t.toInt?, parseHexes hs with
+    | some T, some bs =>
+      joinWith " | " (bs.map (fun b =>
+        match (getMessage crc24q (newState T) b).1 with
+        | .empty => "empty"
+        | .msg m => s!"{m.typ}:{toHex m.raw} analyse=" ++ showAnalyse (analyse m.typ m.raw)))
+    | _, _ => "bad-op"
   | ["analyse", t, h] =>
     match t.toInt?, parseHex h with
     | some T, some b =>
